@@ -192,6 +192,9 @@ def drain_contract(rep):
 def run(rep):
     M.install_simplify_contract()
     M.NODE_MONITOR.install()
+    if rep.shard == 0 and rep.tier != 'quick':
+        # the repository's own tests with the contract on
+        common.run_repo_tests_monitored(rep, ('simplify:',))
     env = common.fresh_env()
     ck = Checker(rep, env)
     for wl, i, b in workloads(rep):
